@@ -64,6 +64,7 @@ type simAdapter struct {
 	FiredEnq, FiredDeq, FiredAck, FiredStall, Dups, Delays int
 	injected int // undecodable entries put into the backend by opInject
 	FiredAckLost int
+	Others int // notifications with an action other than "enqueued"
 	lens     []lenObs
 	enqIDs   []string // job ids in the order the adapter stored them (parsed from the bytes)
 	deliveredBad []bool // per delivered corrupted entry: might it still decode?
@@ -203,6 +204,9 @@ func (a *simAdapter) DequeueWithAckId() (any, bool, string) {
 	id := fmt.Sprintf("ack-%d", a.ackSeq)
 	a.unacked = append(a.unacked, adUnacked{ID: id, E: e, Inc: a.inc})
 	a.log("deq", e.Sub, id, true)
+	if a.cfg.Kind >= qkDist {
+		a.notifyOther("dequeued")
+	}
 	if e.Bad != 0 {
 		a.deliveredBad = append(a.deliveredBad, e.Bad == 2 || e.Bad == 5)
 		a.root.rec.probes[pbBadEntry]++
@@ -383,6 +387,20 @@ type notifyTask struct {
 	a *simAdapter
 	i int
 	d int
+	action string // "" = "enqueued"
+}
+
+// notifyOther publishes an action other than "enqueued" (a backend that also announces
+// dequeues and acknowledgements): subscribers must ignore it.
+func (a *simAdapter) notifyOther(action string) {
+	if a.cfg.NOther == 0 || !simrt.Chance(a.cfg.NOther) {
+		return
+	}
+	a.Others++
+	for i := range a.subs {
+		nt := &notifyTask{a: a, i: i, action: action}
+		simrt.GoHarness("adapter.notify", nt.run)
+	}
 }
 
 func (n *notifyTask) run() {
@@ -391,6 +409,11 @@ func (n *notifyTask) run() {
 	}
 	if o := n.a.subOwner[n.i]; o != nil && o.crashed {
 		return // the subscriber's process is dead
+	}
+	if n.action != "" {
+		n.a.root.rec.stamp()
+		n.a.subs[n.i](n.action)
+		return
 	}
 	n.a.notifies[n.i]++
 	at := n.a.root.rec.stamp()
